@@ -324,10 +324,8 @@ def gen_cases(rng, tier):
     elif tier == "search":
         yield from grid_cases(CODES, range(0, 71))
     else:
-        # exhaustive header grid: every code below 320 with every digest length 0..70, every code below 2^14 at
-        # the boundary lengths
-        yield from grid_cases(range(0, 320), range(0, 71))
-        yield from grid_cases(range(320, 1 << 14), [0, 32, 42, 43, 64, 65])
+        # exhaustive header grid: every code below 2^14 (all 1- and 2-byte varints) with every digest length 0..70
+        yield from grid_cases(range(0, 1 << 14), range(0, 71), chunk=500)
         yield from grid_cases(CODES, range(0, 71))
 
 
